@@ -648,3 +648,80 @@ func retVal(r *ssa.Return, i int) ssa.Value {
 
 // retIsNil: result i of the return is the nil constant (through spills).
 func retIsNil(r *ssa.Return, i int) bool { return isNilConst(retVal(r, i)) }
+
+// controlConds returns the branch edges block b is (transitively) control
+// dependent on: an If at block a is included with successor index i when
+// every path from a.Succs[i] to a function exit passes through b (or through
+// a block already found to control b) while the other successor can avoid it.
+// Unlike controllingEdges this sees through joins of short-circuit
+// conditions (a || b, a && b).
+func controlConds(fn *ssa.Function, b *ssa.BasicBlock) []condEdge {
+	exits := func(x *ssa.BasicBlock) bool { return len(x.Succs) == 0 }
+	// canAvoid: from start, reach an exit without entering target
+	canAvoid := func(start, target *ssa.BasicBlock) bool {
+		if start == target {
+			return false
+		}
+		seen := map[*ssa.BasicBlock]bool{start: true}
+		work := []*ssa.BasicBlock{start}
+		for len(work) > 0 {
+			x := work[len(work)-1]
+			work = work[:len(work)-1]
+			if exits(x) {
+				return true
+			}
+			for _, s := range x.Succs {
+				if s != target && !seen[s] {
+					seen[s] = true
+					work = append(work, s)
+				}
+			}
+		}
+		return false
+	}
+	reaches := func(start, target *ssa.BasicBlock) bool {
+		if start == target {
+			return true
+		}
+		return blockReach(start, nil)[target]
+	}
+	var out []condEdge
+	seenEdge := map[condEdge]bool{}
+	done := map[*ssa.BasicBlock]bool{}
+	work := []*ssa.BasicBlock{b}
+	for len(work) > 0 {
+		t := work[len(work)-1]
+		work = work[:len(work)-1]
+		if done[t] {
+			continue
+		}
+		done[t] = true
+		for _, a := range fn.Blocks {
+			if len(a.Succs) != 2 {
+				continue
+			}
+			iff, ok := a.Instrs[len(a.Instrs)-1].(*ssa.If)
+			if !ok {
+				continue
+			}
+			m0 := reaches(a.Succs[0], t) && !canAvoid(a.Succs[0], t)
+			m1 := reaches(a.Succs[1], t) && !canAvoid(a.Succs[1], t)
+			if m0 == m1 {
+				continue
+			}
+			idx := 0
+			if m1 {
+				idx = 1
+			}
+			ce := condEdge{iff, idx}
+			if !seenEdge[ce] {
+				seenEdge[ce] = true
+				out = append(out, ce)
+			}
+			if a != t {
+				work = append(work, a)
+			}
+		}
+	}
+	return out
+}
